@@ -390,6 +390,19 @@ def setters_vs_fresh(ctx, emg3d, rng):
                     f'array returned by an earlier one', {'from': repr(tag)})
             elif not np.allclose(fa2, 3.0*fb, rtol=1e-10, atol=0):
                 bad.append(('interpolate-not-linear', tag))
+            else:
+                # ... also for spectra of the size of real CSEM data
+                with warnings.catch_warnings():
+                    warnings.simplefilter('ignore')
+                    fa3 = F.interpolate(2.0**-60*fd)
+                if not np.allclose(fa3, 2.0**-60*fb, rtol=1e-10, atol=0):
+                    bad.append(('interpolate-not-linear (tiny)', tag))
+                    ctx.violation(
+                        'interpolate-not-scale-invariant',
+                        f'Fourier {tag}: interpolate(2^-60 d) differs from '
+                        f'2^-60 interpolate(d) (max rel. '
+                        f'{float(np.max(np.abs(fa3/(2.0**-60*fb)-1))):.3g})',
+                        {'from': repr(tag)})
         ctx.count(key=('setters-fresh', t))
     # the signal alone: switch-off <-> switch-on on the same instance
     import empymod
